@@ -329,6 +329,33 @@ SCENARIO(wa3_mix) {
   run(w, unifex::when_all(Leaf{&w, 0}, Leaf{&w, 1}, Leaf{&w, 2}));
 }
 
+SCENARIO(wa1_stop) {
+  World w; w.n = 1; w.outs[0] = VAL; w.ext_stop = true;
+  run(w, unifex::when_all(Leaf{&w, 0}));
+  expect_values(w, {10});
+}
+SCENARIO(wa2_race) {
+  World w; w.n = 2; w.outs[0] = VAL; w.outs[1] = VAL;
+  run(w, unifex::when_all(Leaf{&w, 0}, Leaf{&w, 1}));
+  expect_values(w, {10, 20});
+}
+SCENARIO(wa2_valinl_stop) {
+  World w; w.n = 2; w.outs[0] = VAL; w.inl[1] = true; w.ext_stop = true;
+  run(w, unifex::when_all(Leaf{&w, 0}, Leaf{&w, 1}));
+}
+SCENARIO(wa2_errinl_stop) {
+  World w; w.n = 2; w.outs[0] = ERR; w.inl[1] = true; w.ext_stop = true;
+  run(w, unifex::when_all(Leaf{&w, 0}, Leaf{&w, 1}));
+}
+SCENARIO(wa3_fail_inl) {
+  World w; w.n = 3; w.outs[0] = ERR; w.outs[1] = DONE; w.inl[2] = true;
+  run(w, unifex::when_all(Leaf{&w, 0}, Leaf{&w, 1}, Leaf{&w, 2}));
+}
+SCENARIO(wa3_stop_inl) {
+  World w; w.n = 3; w.outs[0] = VAL; w.inl[1] = true; w.inl[2] = true; w.ext_stop = true;
+  run(w, unifex::when_all(Leaf{&w, 0}, Leaf{&w, 1}, Leaf{&w, 2}));
+}
+
 // ---------------------------------------------------------------- when_all_range
 SCENARIO(war2_stop) {
   World w; w.n = 2; w.outs[0] = VAL; w.outs[1] = VAL; w.ext_stop = true;
@@ -370,6 +397,16 @@ SCENARIO(sw_mix) {
   World w; sw_world(w); w.outs[0] = VAL; w.inl[1] = true; w.ext_stop = true;
   run(w, unifex::stop_when(Leaf{&w, 0}, VoidLeaf{&w, 1}));
   expect_values(w, {10});
+}
+
+SCENARIO(sw_race) {
+  World w; sw_world(w); w.outs[0] = VAL; w.outs[1] = VAL;
+  run(w, unifex::stop_when(Leaf{&w, 0}, VoidLeaf{&w, 1}));
+  expect_values(w, {10});
+}
+SCENARIO(sw_trg_stop) {
+  World w; sw_world(w); w.inl[0] = true; w.outs[1] = VAL; w.ext_stop = true;
+  run(w, unifex::stop_when(Leaf{&w, 0}, VoidLeaf{&w, 1}));
 }
 
 RT_MAIN()
